@@ -370,7 +370,7 @@ def observe(out, model, cls, ex, ctx='', ov=None, entry=None, get_sheet=True, bl
             out.skipped += 1
             continue
         e = model.cells[s].get((c, r))
-        obs = 'override' if (s, c, r) in ov else {'const': 'constant', 'formula': 'reference', 'array': 'array_formula',
+        obs = 'overridden' if (s, c, r) in ov else {'const': 'constant', 'formula': 'reference', 'array': 'array_formula',
                                                    'styled': 'stored_blank'}.get(e['kind'] if e else None, 'blank')
         where0 = f"'{model.titles[s]}'!{letters(c)}{r}" + (f" [{e['text']}]" if e and 'text' in e else '')
         for a in addr:
@@ -563,14 +563,45 @@ def run_scenario(scn):
             'fails': [[k, w] for k, w in out.fails.items()]}
 
 
+MEM_LIMIT = 3 * 2 ** 30
+SCN_TIMEOUT = 300
+
+
+def _init_worker():
+    """a workbook reader that runs away (pads a far cell's sheet to a full grid) must fail, not take the machine down"""
+    import resource
+    try:
+        resource.setrlimit(resource.RLIMIT_AS, (MEM_LIMIT, MEM_LIMIT))
+    except (ValueError, OSError):
+        pass
+
+
 def _work(arg):
+    import signal
+    import traceback
     idx, scn = arg
+
+    def on_alarm(*a):
+        raise TimeoutError(f'not finished after {SCN_TIMEOUT} s')
+    try:
+        signal.signal(signal.SIGALRM, on_alarm)
+        signal.alarm(SCN_TIMEOUT)
+    except ValueError:
+        pass
     try:
         res = run_scenario(scn)
+    except (MemoryError, TimeoutError) as e:
+        res = {'evals': 1, 'nontrivial': 0, 'skipped': 0, 'samples': [],
+               'fails': [['C18.resource.' + type(e).__name__, f'reading / translating / executing the workbook(s) '
+                          f'{[_all_sheets(b["spec"]) for b in scn["books"]]} exhausted {MEM_LIMIT >> 30} GiB or {SCN_TIMEOUT} s: {e!r}']]}
     except BaseException as e:  # noqa - a crash of the monitor itself must be visible, not silent
-        import traceback
         res = {'evals': 1, 'nontrivial': 0, 'skipped': 0, 'samples': [],
                'fails': [['C18.monitor_crash.' + type(e).__name__, traceback.format_exc()[-600:]]]}
+    finally:
+        try:
+            signal.alarm(0)
+        except ValueError:
+            pass
     res['idx'] = idx
     return res
 
@@ -1138,8 +1169,18 @@ def run(tier='quick', seed=0):
     t0 = time.time()
     scns = build(tier, seed)
     ctx = multiprocessing.get_context('fork')
-    with ctx.Pool(16) as pool:
-        results = list(pool.imap_unordered(_work, list(enumerate(scns)), chunksize=1))
+    results = []
+    with ctx.Pool(16, initializer=_init_worker) as pool:
+        handles = [pool.apply_async(_work, ((i, scn),)) for i, scn in enumerate(scns)]
+        deadline = time.time() + (900 if tier != 'thorough' else 3000)
+        for i, h in enumerate(handles):
+            try:
+                results.append(h.get(timeout=max(1.0, deadline - time.time())))
+            except multiprocessing.TimeoutError:            # the worker process was killed from outside: never silent
+                results.append({'idx': i, 'evals': 1, 'nontrivial': 0, 'skipped': 0, 'samples': [],
+                                'fails': [['C18.resource.worker_lost', 'the worker evaluating this scenario disappeared or '
+                                           'did not answer before the deadline']]})
+        pool.terminate()
     results.sort(key=lambda r: r['idx'])
     agg = {}
     for res in results:
@@ -1172,7 +1213,8 @@ def run(tier='quick', seed=0):
                 continue
             seen.add(k)
             scn, what = scns[idx], w
-            if len(seen) <= 12 and not scn.get('rootkey'):
+            if len(seen) <= 12 and not scn.get('rootkey') and not k.startswith(('C18.resource.', 'C18.monitor_crash.')) \
+                    and 'MemoryError' not in k and 'TimeoutError' not in k:
                 small, w2 = shrink(scn, k, budget=8.0)
                 if w2 is not None:
                     scn, what = small, w2
@@ -1190,6 +1232,7 @@ def run(tier='quick', seed=0):
 def replay(payload):
     if not payload or 'scenario' not in payload:
         return {'fails': False, 'text': 'nothing to replay'}
+    _init_worker()
     res = _work((0, payload['scenario']))
     for k, w in res['fails']:
         if k == payload.get('key'):
